@@ -274,7 +274,7 @@ def run(chk) -> None:
         reason = f"{len(sends)} adapter.send_event calls"
         if ok:
             s = sends[0]
-            tk = s.args[0] if s.args else None
+            tk = expand(s.args[0], s, depth=1) if s.args else None
             ok = isinstance(tk, ast.Call) and last(call_name(tk)) == "TickAddEvent" and kwarg(tk, "event") is not None and ast.unparse(kwarg(tk, "event")) == msg \
                 and kwarg(tk, "step_name") is not None and ast.unparse(kwarg(tk, "step_name")) == step
             reason = f"payload {ast.unparse(tk)[:80] if tk is not None else None}"
